@@ -57,6 +57,22 @@ pub fn snapshot<T: ?Sized + Trace>(cc: &Cc<T>) -> Snapshot {
     snapshot_box(ptr.cast())
 }
 
+/// Returns the white-box view of the allocation whose `CcBox` starts at `box_addr`.
+///
+/// # Safety
+/// `box_addr` must be the address of a `CcBox` whose memory has not been released.
+#[inline]
+pub unsafe fn snapshot_at(box_addr: usize) -> Snapshot {
+    snapshot_box(NonNull::new_unchecked(box_addr as *mut CcBox<()>))
+}
+
+/// Returns the address of the `CcBox` pointed by `weak` (dangling if created with `Weak::new`).
+#[cfg(feature = "weak-ptrs")]
+#[inline]
+pub fn weak_box_addr<T: ?Sized + Trace>(weak: &crate::weak::Weak<T>) -> usize {
+    weak.verif_cc().cast::<()>().as_ptr() as usize
+}
+
 /// Returns the address of the weak side record pointed by `weak` and its raw weak-counter word.
 #[cfg(feature = "weak-ptrs")]
 #[inline]
